@@ -24,7 +24,7 @@ def enumerate_cases(specdir, fam, module="NbCases.tla", cfg=None, args=(), worke
     bad = vlib.tlc_failed(out)
     if bad or rc != 0:
         raise vlib.Inconclusive("case enumeration %s failed (%s):\n%s" % (fam, bad, out[-2000:]))
-    cases = [json.loads(json.loads(m.group(1))) for m in re.finditer(r'<<"CASE", (".*")>>', out)]
+    cases = [json.loads(json.loads(m.group(1))) for m in re.finditer(r'<<\s*"CASE",\s*(".*")\s*>>', out)]
     gen, dist = vlib.tlc_stats(out)
     return cases, gen, dist, wall
 
@@ -60,8 +60,8 @@ def validate(specdir, obs, prefixes):
         bad = vlib.tlc_failed(out)
         if bad or "No error has been found" not in out or "Postcondition" in out:
             raise vlib.Inconclusive("nb validation batch %d did not complete (%s):\n%s" % (bi, bad, out[-2000:]))
-        stricter += len(re.findall(r'<<"STRICTER", \d+>>', out))
-        for m in re.finditer(r'<<"VIOLATION", (\d+), \{([^}]*)\}>>', out):
+        stricter += len(re.findall(r'<<\s*"STRICTER",\s*\d+\s*>>', out))
+        for m in re.finditer(r'<<\s*"VIOLATION",\s*(\d+),\s*\{([^}]*)\}\s*>>', out, re.S):
             L = ls[int(m.group(1)) - 1]
             for c in re.findall(r'"(\w+)"', m.group(2)):
                 if any(c.startswith(p) for p in prefixes):
